@@ -122,6 +122,12 @@ def unwrapRef (env : Env) (s : Schema) : Schema :=
   | .ref n => (env.get? n).getD s
   | s => s
 
+/-- `datum.get(field name, field default)` (`None` when there is no default) -/
+def presentOrDefault (kv : List (Val × Val)) (fld : Field) : Val :=
+  match dictGetV kv fld.name with
+  | some x => x
+  | none => fld.default.getD .none
+
 def dictKeys (kv : List (Val × Val)) : List String :=
   kv.filterMap fun (k, _) => match k with | .str s => some s | _ => none
 
